@@ -417,3 +417,72 @@ func (c *Ctx) isDirectoryPath(f *ssa.Function, v ssa.Value, d int) bool {
 	}
 	return false
 }
+
+// hoistedDiffers: the condition of a re-emission was given a name first (`changed := task.X != createdX || ...` followed
+// by `if changed {` or, for the epic event, `if !task.IsEpic && changed {`). The differs edge then enters the block of a
+// bool phi with the constant true; the emission is reached when the first branch on that phi is taken on its true edge.
+// Between the phi and that branch only a test of IsEpic may sit, and only for the `epic` event (writers refuse epics in
+// epics, see emissionNotGuardedByKind); the walk follows its not-an-epic edge.
+func hoistedDiffers(bf branchFact, em *Emission, event string) bool {
+	tgt := bf.E.To()
+	for _, in := range tgt.Instrs {
+		phi, ok := in.(*ssa.Phi)
+		if !ok {
+			break
+		}
+		isTrue := false
+		for i, p := range tgt.Preds {
+			if p == bf.E.From && i < len(phi.Edges) {
+				if k, ok := phi.Edges[i].(*ssa.Const); ok && k.Value != nil && k.Value.Kind() == constant.Bool && constant.BoolVal(k.Value) {
+					isTrue = true
+				}
+			}
+		}
+		if !isTrue {
+			continue
+		}
+		b := tgt
+		for steps := 0; steps < 6 && b != nil; steps++ {
+			if len(b.Instrs) == 0 {
+				return false
+			}
+			// nothing but value computations may sit on the way (no call that could end the iteration, no store)
+			for _, x := range b.Instrs[:len(b.Instrs)-1] {
+				switch x.(type) {
+				case *ssa.Phi, *ssa.UnOp, *ssa.BinOp, *ssa.FieldAddr, *ssa.Field, *ssa.DebugRef:
+				default:
+					return false
+				}
+			}
+			switch last := b.Instrs[len(b.Instrs)-1].(type) {
+			case *ssa.Jump:
+				b = b.Succs[0]
+			case *ssa.If:
+				a, pos := decompose(last.Cond)
+				if a.Kind != "bool" {
+					return false
+				}
+				if strip(a.X) == ssa.Value(phi) {
+					t := b.Succs[1]
+					if pos {
+						t = b.Succs[0]
+					}
+					return t == em.Call.Block() || (t.Dominates(em.Call.Block()) && len(t.Succs) == 1)
+				}
+				if _, n, ok := fieldLoad(a.X); ok && n == "IsEpic" && event == "epic" {
+					// follow the edge on which the item is not an epic
+					if pos {
+						b = b.Succs[1]
+					} else {
+						b = b.Succs[0]
+					}
+					continue
+				}
+				return false
+			default:
+				return false
+			}
+		}
+	}
+	return false
+}
